@@ -183,3 +183,30 @@ def segment_start(lines, l):
     while i > 1 and not lines[i - 1].startswith(SEG_STARTS):
         i -= 1
     return i
+
+
+def operator_coverage(module, cfg, meta, modules=("RBArena", "KeyExpTree"), workers=4, timeout=1800):
+    """TLC -coverage run: how often the body of each operator of the layer-1 modules was evaluated.
+    An operator (a repair case, the growth path, a lazy-expiry loop) that never fired would make the
+    invariants that speak about it vacuous."""
+    rc, out, wall = _tlc(module + ".tla", cfg, meta, {}, workers, JAVA_OPTS_MODEL, timeout, extra_args=("-coverage", "1"))
+    # the last coverage dump is the complete one
+    blocks = out.split("The coverage statistics at")
+    dump = blocks[-1] if len(blocks) > 1 else out
+    res = {}
+    for mod in modules:
+        src = open(os.path.join(SPEC, mod + ".tla")).read().splitlines()
+        defs = [(i + 1, m.group(1)) for i, ln in enumerate(src) for m in [re.match(r"^([A-Z][A-Za-z0-9]*)(\(.*\))? ==", ln)] if m]
+        bounds = {name: (ln, (defs[j + 1][0] - 1) if j + 1 < len(defs) else len(src)) for j, (ln, name) in enumerate(defs)}
+        per_loc = {}
+        for m in re.finditer(r"line (\d+), col (\d+) to line (\d+), col (\d+) of module %s>?: (\d+)(?::(\d+))?" % mod, dump):
+            loc = (int(m.group(1)), int(m.group(2)), int(m.group(3)), int(m.group(4)))
+            cnt = int(m.group(6) or m.group(5))
+            per_loc[loc] = per_loc.get(loc, 0) + cnt
+        for name, (a, b) in bounds.items():
+            counts = [c for (l1, c1, l2, c2), c in per_loc.items() if a <= l1 <= b]
+            if counts:
+                res[f"{mod}.{name}"] = max(counts)
+            else:
+                res[f"{mod}.{name}"] = 0
+    return res
